@@ -199,6 +199,43 @@ def types_line():
     }
 
 
+def parts_ext():
+    """a part of a multi-config file named explicitly from OUTSIDE that file; all variants are edits of the same files in place"""
+    return {
+        'name': 'parts_ext',
+        '_shared_cfg': True,
+        'tasks': {
+            'F': {'name': 'features', 'params': [P('n')], 'inputs': [], 'data': 'json'},
+            'M': {'name': 'model', 'params': [P('k', default=1)], 'inputs': [by_name('feats::features')], 'data': 'json'},
+        },
+        'configs': {
+            'root': {'medium': 'json', 'tasks': ['M'], 'values': {}, 'uses': [{'config': 'small', 'as': 'feats'}]},
+            'small': {'medium': 'part', 'file': 'library.json', 'ext': 'json', 'part': 'small', 'tasks': ['F'], 'values': {'n': 2}},
+            'big': {'medium': 'part', 'file': 'library.json', 'ext': 'json', 'part': 'big', 'main_part': True, 'tasks': ['F'], 'values': {'n': 100}},
+        },
+        'root': 'root',
+        'variants': {'v0': [], 'v1': [[['configs', 'small', 'values', 'n'], 4]], 'v2': [[['configs', 'root', 'values', 'k'], 2]], 'v3': [[['configs', 'small', 'values', 'n'], 6]]},
+    }
+
+
+def optns():
+    """a root-level task with an OPTIONAL by-name input that exists only inside a namespace: the default must be used"""
+    return {
+        'name': 'optns',
+        'tasks': {
+            'Cal': {'name': 'calibration', 'params': [P('c', default=7)], 'inputs': [], 'data': 'json'},
+            'Rep': {'name': 'report', 'params': [P('r', default=1)], 'inputs': [{'how': 'opt_name', 'ref': 'calibration', 'default': 0}], 'data': 'json'},
+        },
+        'configs': {
+            'root': {'medium': 'json', 'tasks': ['Rep'], 'values': {}, 'uses': [{'config': 'aux', 'as': 'aux'}]},
+            'aux': {'medium': 'json', 'tasks': ['Cal'], 'values': {}},
+            'rootcal': {'medium': 'json', 'tasks': ['Rep', 'Cal'], 'values': {'c': 9}, 'uses': [{'config': 'aux', 'as': 'aux'}]},
+        },
+        'root': 'root',
+        'variants': {'v0': [], 'v1': [[['root'], 'rootcal']], 'v2': [[['configs', 'aux', 'values', 'c'], 8]]},
+    }
+
+
 def namemode():
     """for name mode (results stored under the config's name): two configs of one pipeline whose names extend each other
     (exp / exp_big), different values, one data directory"""
@@ -218,4 +255,4 @@ def namemode():
     }
 
 
-ALL = {f.__name__: f for f in (namemode, chain3, diamond, mount2, mount2p, uses2, parts, optpat, ctxmove, types_line)}
+ALL = {f.__name__: f for f in (namemode, parts_ext, optns, chain3, diamond, mount2, mount2p, uses2, parts, optpat, ctxmove, types_line)}
